@@ -1033,13 +1033,9 @@ class Grid(object):
             if n == 1:
                 coord = torch.tensor([0], dtype=dtype, device=device)
             elif normalize:
-                if align_corners:
-                    spacing = 2 / (n - 1)
-                    extrema = (-1, 1 + 0.1 * spacing)
-                else:
-                    spacing = 2 / n
-                    extrema = (-1 + 0.5 * spacing, 1)
-                coord = torch.arange(*extrema, spacing, dtype=dtype, device=device)
+                # linspace yields exactly n samples with exact extrema within [-1, 1]
+                extrema = (-1, 1) if align_corners else (-1 + 1 / n, 1 - 1 / n)
+                coord = torch.linspace(*extrema, steps=n, dtype=dtype, device=device)
             elif center:
                 radius = (n - 1) / 2
                 coord = torch.linspace(-radius, radius, steps=n, dtype=dtype, device=device)
